@@ -1677,6 +1677,10 @@ func c04Replay(c *ctx) {
 	o := &c04Out{stats: map[string]int64{}}
 	atoi := func(s string) int64 { v, _ := strconv.ParseInt(s, 10, 64); return v }
 	kind, kv := c04KV(rep.Input)
+	if kind == "mcts-steps" { // iteration-level MCTS cases: re-run by mcts_steps.go, which prints its own verdict
+		mctsStepsReplay(c, rep.Input)
+		return
+	}
 	switch kind {
 	case "mm":
 		k := c04MMCfg{size: int(atoi(kv["size"])), depth: int(atoi(kv["depth"])), tableMem: atoi(kv["table"]), nosort: kv["nosort"] == "1",
